@@ -330,7 +330,13 @@ func (w *vkSrvWorld) serve(path vkPath, proto string, client netip.AddrPort, raw
 			j := w.udpSlab()
 			j.transition(udpJobFree, udpJobReading)
 			j.pc = w.udp
-			j.setRemote(cl)
+			// the remote address arrives as the kernel's raw sockaddr and goes through the engine's own
+			// decoder (batched reader's finishRecv): what it refuses is dropped, as finishRecv drops it
+			if !vkIngressRemote(j, cl) {
+				j.release(udpJobReading)
+				return nil, false
+			}
+			j.rawSALen = 0 // (this harness reads the staged reply; nothing is sent through the raw sockaddr)
 			j.rxLen = copy(j.rx[:], pkt)
 			j.readTime = now
 			w.ue.inFlight.Add(1)
